@@ -50,10 +50,15 @@ import (
 	"bufio"
 	"bytes"
 	"context"
+	"crypto/ed25519"
+	"crypto/rand"
 	"crypto/tls"
+	"crypto/x509"
+	"crypto/x509/pkix"
 	"fmt"
 	"io"
 	"log"
+	"math/big"
 	"net"
 	"net/http"
 	"os"
@@ -64,6 +69,7 @@ import (
 	"testing/synctest"
 	"time"
 
+	proxyproto "github.com/armon/go-proxyproto"
 	"github.com/go-kit/kit/metrics/discard"
 	grpc_proxy "github.com/mwitkow/grpc-proxy/proxy"
 	"google.golang.org/grpc"
@@ -93,12 +99,39 @@ type c18Lis struct {
 	// AcceptErrAt: fault: at this instant (offset from the start of the run, never later than the shutdown
 	// instant) the listener's Accept fails with a permanent error.
 	AcceptErrAt *time.Duration `json:"accept_error_at,omitempty"`
+	// TLS: the listener terminates TLS (http: an https listener; tcp: proto=tcp with a certificate source):
+	// tls.NewListener around the accepting listener, as proxy.ListenTCP builds it.
+	TLS bool `json:"terminates_tls,omitempty"`
+	// Pxy: the listener expects the PROXY protocol (proxyproto.Listener below the TLS layer, as
+	// proxy.ListenTCP builds it) and gives a client PxyTimeout for its header.
+	Pxy        bool          `json:"proxy_protocol,omitempty"`
+	PxyTimeout time.Duration `json:"proxy_header_timeout,omitempty"`
+	// StartAt: the listener is not started during set-up: the real serve path is called for it at this
+	// instant (offset from the start of the run), around the shutdown instant.
+	StartAt *time.Duration `json:"started_at,omitempty"`
 
 	host   string
 	port   int
 	srv    *c18Server
+	tlscfg *tls.Config
 	fl     *c18FaultyListener
 	failed bool // guarded by env.mu: the accept error has been injected
+	// late start, guarded by env.mu
+	started   bool // the start event has fired
+	skipped   bool // ... after Shutdown had returned (the process is gone): nothing was started
+	startedPh string
+}
+
+// layers lists what a client of the listener has to get through, outermost first.
+func (l *c18Lis) layers() []string {
+	var ls []string
+	if l.Pxy {
+		ls = append(ls, "pxy")
+	}
+	if l.TLS {
+		ls = append(ls, "tls")
+	}
+	return append(ls, "proto")
 }
 
 // dialKey is the address a client of the listener connects to.
@@ -152,6 +185,19 @@ type c18Item struct {
 	// ClientConn is closed or reset underneath it).
 	Leave   string        `json:"client_leaves,omitempty"`
 	LeaveAt time.Duration `json:"client_leaves_at,omitempty"`
+	// Brim: with Forever, http and tunnels: the client never reads and the backend sends piece after piece
+	// just as long as the pieces still fit into what the network buffers for the client (its receive window):
+	// the open work is a connection whose window is full to the brim while nobody is blocked in a write.
+	Brim bool `json:"client_window_filled_to_the_brim,omitempty"`
+	// TLSVer: items on TLS-terminating listeners: the highest version the client offers (1.3 | 1.2).
+	TLSVer string `json:"tls_version,omitempty"`
+	// NoPxy: items on PROXY-protocol listeners: the client sends no PROXY header (the protocol is optional).
+	NoPxy bool `json:"no_proxy_header,omitempty"`
+	// Layer: kind "raw" only: the layer of the listener in which the client stalls (pxy | tls | proto); the
+	// layers before it are completed (PROXY header sent / TLS handshake finished), Pre and Cut say what
+	// the client still sends of this layer's greeting. On the tls layer Pre can also be "hello": the whole
+	// ClientHello, and the handshake is never continued.
+	Layer string `json:"stalls_in_layer,omitempty"`
 
 	// built inside the bubble
 	marker  []byte
@@ -172,6 +218,15 @@ type c18Item struct {
 	reply     string
 	callDone  bool
 	doneAt    time.Time
+	// filling the client's window (Brim), guarded by env.mu
+	fillCh      chan int
+	fillWaiting bool
+	fillN       int
+	fillLastK   int
+	fillBase    int64 // bytes sent towards the client before the last piece
+	fillCost1   int   // what a 1-byte piece costs on the client's connection
+	fillDone    bool
+	upConn      *simnet.Conn
 }
 
 type c18Scenario struct {
@@ -196,12 +251,33 @@ const c18GrpcBackend = "10.2.0.50:9100"
 // label names the kind of an item in probes and signatures.
 func (it *c18Item) label() string {
 	if it.Kind == "raw" {
+		if it.Layer != "" && it.Layer != "proto" {
+			return "raw-" + it.Layer + "-" + it.Pre
+		}
+		if it.TLSVer != "" {
+			return "raw-after-tls-handshake-" + it.Pre
+		}
 		return "raw-" + it.Pre
 	}
 	if it.Proxied {
 		return "proxied-" + it.Kind
 	}
+	if it.TLSVer != "" {
+		return it.Kind + "-over-tls"
+	}
 	return it.Kind
+}
+
+// name is the kind of the listener with what it is wrapped in, for probes and signatures.
+func (l *c18Lis) name() string {
+	n := l.Kind
+	if l.TLS {
+		n += "+tls"
+	}
+	if l.Pxy {
+		n += "+pxy"
+	}
+	return n
 }
 
 // c18Hosts are the host parts of listener addresses: IP literals of both families (more than one per
@@ -255,7 +331,13 @@ func c18Gen(g *simcore.Tape, thorough bool) *c18Scenario {
 	sc.Tasks = g.Chance(35)
 	sc.Stick = simcore.Pick(g, []int{1, 3, 8})
 	nl := g.Range(1, 5)
-	for i := 0; i < nl; i++ {
+	W, A := sc.Wait, sc.At
+	nlate := 0
+	if g.Chance(30) {
+		// one more listener is started while fabio runs, around the shutdown instant
+		nlate = 1
+	}
+	for i := 0; i < nl+nlate; i++ {
 		l := &c18Lis{Kind: simcore.Pick(g, c18Kinds)}
 		l.host, l.port = c18ListenerAddr(g, sc.Listeners, i)
 		l.Addr = net.JoinHostPort(l.host, fmt.Sprint(l.port))
@@ -264,20 +346,45 @@ func c18Gen(g *simcore.Tape, thorough bool) *c18Scenario {
 			// share the route and therefore the upstream (tunnels are told apart by their marker)
 			l.Up = fmt.Sprintf("up-p%d.sim:9000", l.port)
 		}
+		if (l.Kind == "http" || l.Kind == "tcp") && g.Chance(35) {
+			l.TLS = true
+		}
+		if g.Chance(25) {
+			l.Pxy = true
+			l.PxyTimeout = simcore.Pick(g, []time.Duration{250 * time.Millisecond, 2 * time.Second}) // fabio's default first
+		}
+		if i >= nl {
+			// same instant as the shutdown (the driver orders the two), just after it, half way through the
+			// drain, just before the deadline, or while fabio is simply running
+			at := simcore.Pick(g, []time.Duration{A, A + time.Millisecond, A + W/2, A + W - time.Millisecond, A / 2})
+			if at < 0 {
+				at = 0
+			}
+			l.StartAt = &at
+		}
 		sc.Listeners = append(sc.Listeners, l)
 	}
+	nl += nlate
 	maxItems := 6
 	if thorough {
 		maxItems = 10
 	}
 	ni := g.Range(1, maxItems)
-	W, A := sc.Wait, sc.At
 	end := A + W
 	for j := 0; j < ni; j++ {
 		it := &c18Item{ID: fmt.Sprintf("i%02d", j), Rounds: 1}
 		it.Lis = g.Intn(nl)
+		if nlate > 0 && j == 0 {
+			it.Lis = nl - 1 // a listener that is started late always has a client
+		}
 		l := sc.Listeners[it.Lis]
 		it.Kind = l.Kind
+		if l.TLS {
+			it.TLSVer = simcore.Pick(g, []string{"1.3", "1.2"})
+		}
+		if l.Pxy {
+			it.NoPxy = g.Chance(20)
+		}
 		if l.Kind == "grpc" || l.Kind == "grpc-proxy" {
 			it.Kind = simcore.Pick(g, c18GrpcCalls)
 			it.Proxied = l.Kind == "grpc-proxy"
@@ -309,6 +416,7 @@ func c18Gen(g *simcore.Tape, thorough bool) *c18Scenario {
 			}
 			it.Start = A + off
 		}
+		c18AfterStart(g, it, l, A, W)
 		it.ReqLen = simcore.Pick(g, []int{0, 1, 200, 3000})
 		it.RespLen = simcore.Pick(g, []int{2, 0, 300, 20000})
 		if tunnel {
@@ -368,6 +476,10 @@ func c18Gen(g *simcore.Tape, thorough bool) *c18Scenario {
 			if it.Forever && !it.Stall && (it.Kind == "grpc-stream" || it.Kind == "grpc-sstream") {
 				it.Prelude = g.Bool()
 			}
+			if it.Forever && !it.Stall && (it.Kind == "http" || tunnel) && g.Chance(30) {
+				it.Brim = true
+				it.Rounds, it.Dur = 1, 0
+			}
 			if it.Kind == "http" && !it.Forever && it.Start+it.Dur < A {
 				it.Hold = g.Bool()
 			}
@@ -409,16 +521,23 @@ func c18Gen(g *simcore.Tape, thorough bool) *c18Scenario {
 		it := &c18Item{ID: fmt.Sprintf("r%02d", k), Kind: "raw"}
 		it.Lis = g.Intn(nl)
 		l := sc.Listeners[it.Lis]
+		it.Layer = simcore.Pick(g, l.layers())
+		if l.TLS {
+			it.TLSVer = simcore.Pick(g, []string{"1.3", "1.2"})
+		}
 		pres := c18Pres[:2]
-		if l.Kind == "grpc" || l.Kind == "grpc-proxy" {
+		switch {
+		case it.Layer == "tls":
+			pres = []string{"silent", "partial", "hello"}
+		case it.Layer == "proto" && (l.Kind == "grpc" || l.Kind == "grpc-proxy"):
 			pres = c18Pres
 		}
 		it.Pre = simcore.Pick(g, pres)
 		if it.Pre == "partial" {
 			it.Cut = simcore.Pick(g, c18Cuts)
-			if l.Kind == "sni" {
-				it.Name = it.ID + ".example.com"
-			}
+		}
+		if it.Pre != "silent" && (it.Layer == "tls" || it.Layer == "proto" && l.Kind == "sni") {
+			it.Name = it.ID + ".example.com"
 		}
 		it.Client = fmt.Sprintf("192.0.2.%d:5000", 100+k)
 		if strings.Contains(l.host, ":") {
@@ -442,6 +561,7 @@ func c18Gen(g *simcore.Tape, thorough bool) *c18Scenario {
 			}
 			it.Start = A + off
 		}
+		c18AfterStart(g, it, l, A, W)
 		if it.Leave = simcore.Pick(g, []string{"", "fin", "rst"}); it.Leave != "" {
 			it.LeaveAt = c18LeaveAt(g, it.Start, A, W)
 		}
@@ -462,12 +582,35 @@ func c18Gen(g *simcore.Tape, thorough bool) *c18Scenario {
 			nf = 2
 		}
 		for k := 0; k < nf; k++ {
-			l := sc.Listeners[g.Intn(nl)]
+			l := sc.Listeners[g.Intn(nl-nlate)] // never the listener that is started late
 			at := A * time.Duration(simcore.Pick(g, []int{4, 2, 3, 1})) / 4
 			l.AcceptErrAt = &at
 		}
 	}
 	return sc
+}
+
+// c18AfterStart moves the start of an item on a listener that is started late to an instant at which the
+// listener can exist: the instant of the start itself (the driver orders the two), 1ms later, or half way
+// between the start and the deadline.
+func c18AfterStart(g *simcore.Tape, it *c18Item, l *c18Lis, A, W time.Duration) {
+	if l.StartAt == nil {
+		return
+	}
+	s := *l.StartAt
+	rest := A + W - s
+	if rest < 0 {
+		rest = 0
+	}
+	it.Start = s + simcore.Pick(g, []time.Duration{time.Millisecond, 0, rest / 2})
+	switch {
+	case it.Start < A:
+		it.When = "before"
+	case it.Start == A:
+		it.When = "same-instant"
+	default:
+		it.When = "late"
+	}
 }
 
 // c18Pres are the behaviours of a raw connection (the last two on gRPC listeners only); c18Cuts are the
@@ -507,6 +650,21 @@ func c18LeaveAt(g *simcore.Tape, from, A, W time.Duration) time.Duration {
 	return at
 }
 
+// c18PxyHeader is the PROXY protocol (version 1) line a load balancer in front of fabio sends first: the
+// address of the original client and the address it connected to.
+func c18PxyHeader(it *c18Item, l *c18Lis) []byte {
+	n := 0
+	fmt.Sscanf(it.ID[1:], "%d", &n)
+	if strings.Contains(l.host, ":") {
+		return []byte(fmt.Sprintf("PROXY TCP6 2001:db8:ffff::%x %s %d %d\r\n", 16+n, l.host, 40000+n, l.port))
+	}
+	dst := l.host
+	if net.ParseIP(dst) == nil {
+		dst = c18WildcardVia // wildcard and name-keyed listeners
+	}
+	return []byte(fmt.Sprintf("PROXY TCP4 203.0.113.%d %s %d %d\r\n", 10+n, dst, 40000+n, l.port))
+}
+
 // c18Partial cuts the greeting full (boundary: the length of its first structural part).
 func c18Partial(full []byte, boundary int, cut string) []byte {
 	n := 1
@@ -540,8 +698,14 @@ type c18Server struct {
 	kind  string
 	inner Server
 
+	// door: a listener that is started late: Serve waits here for the driver (nil: no stop)
+	door chan struct{}
+
 	// guarded by e.mu
+	atDoor     bool
+	doorOpen   bool
 	serving    bool
+	servedGone bool // Serve was entered after proxy.Shutdown had returned
 	served     bool // Serve has returned
 	serveErr   error
 	sdEntered  bool
@@ -551,8 +715,21 @@ type c18Server struct {
 
 func (s *c18Server) Close() error { return s.inner.Close() }
 func (s *c18Server) Serve(l net.Listener) error {
+	if s.door != nil {
+		// proxy.serve has registered the server and now calls Serve: the goroutine may lose the processor
+		// right here; the driver decides what else happens before the server's own Serve begins
+		s.e.mu.Lock()
+		s.atDoor = true
+		s.e.mu.Unlock()
+		select {
+		case <-s.door:
+		case <-s.e.stop:
+			return net.ErrClosed
+		}
+	}
 	s.e.mu.Lock()
 	s.serving = true
+	s.servedGone = s.e.sdReturned
 	s.e.mu.Unlock()
 	err := s.inner.Serve(l)
 	s.e.mu.Lock()
@@ -657,6 +834,11 @@ type c18Peer struct {
 	complete   bool
 	completeAt time.Time
 	phase      string // of the connection attempt: before | gray | after
+	gone          bool // the attempt was made after proxy.Shutdown had returned
+	willHandshake bool
+	tls        *tls.Conn // set once the TLS handshake has completed
+	hsDone     bool
+	hsErr      error
 	leftPhase  string // of the instant the client went away (Leave), empty while it is there
 }
 
@@ -733,6 +915,16 @@ func (e *c18Env) httpHandler() http.Handler {
 			return
 		}
 		e.enter(it)
+		if it.Brim {
+			// an endless response (unknown length) to a client that does not read
+			w.Header().Set("Content-Type", "application/octet-stream")
+			e.brimLoop(it, func(b []byte) error {
+				if _, err := w.Write(b); err != nil {
+					return err
+				}
+				return http.NewResponseController(w).Flush()
+			})
+		}
 		if it.Forever && !it.Stall {
 			select {
 			case <-e.stop:
@@ -864,6 +1056,13 @@ func (e *c18Env) upstreamConn(it *c18Item, c net.Conn) {
 		if err != nil {
 			return
 		}
+		if it.Brim {
+			e.mu.Lock()
+			it.upConn, _ = c.(*simnet.Conn)
+			e.mu.Unlock()
+			e.brimLoop(it, func(b []byte) error { _, err := c.Write(b); return err })
+			break
+		}
 		if !e.sleep(it.Dur) {
 			return
 		}
@@ -896,6 +1095,9 @@ func (e *c18Env) addPeer(it *c18Item, key string, acts []c18Act, want int) *c18P
 		if !a.At.IsZero() {
 			e.d.Hint(a.At)
 		}
+		if a.Kind == "handshake" {
+			p.willHandshake = true
+		}
 	}
 	e.mu.Lock()
 	e.peers = append(e.peers, p)
@@ -920,12 +1122,12 @@ func (p *c18Peer) actor(e *c18Env) {
 		}
 		e.mu.Lock()
 		a := p.acts[p.next]
-		conn := p.conn
+		conn, tc := p.conn, p.tls
 		e.mu.Unlock()
+		lk := e.sc.Listeners[p.it.Lis].Kind
 		switch a.Kind {
 		case "dial":
 			nw := e.net
-			lk := e.sc.Listeners[p.it.Lis].Kind
 			if lk == "grpc" || lk == "grpc-proxy" {
 				nw = e.gnet // raw connections to a gRPC listener
 			}
@@ -938,18 +1140,41 @@ func (p *c18Peer) actor(e *c18Env) {
 			}
 			p.conn = c.(*simnet.Conn)
 			e.mu.Unlock()
-			if p.it.Kind == "raw" && lk == "http" {
+			if p.it.Kind == "raw" && lk == "http" && !p.willHandshake {
 				// net/http closes a connection that has not sent a request head after about 5 s at one
 				// of the polling instants of Shutdown, which are jittered with math/rand: nothing the
 				// server does to this connection may reach the schedule or the trace. The client is a
 				// peer whose side of the path is dead: what the server sends is never delivered.
 				p.conn.Peer().Stall(true)
 			}
-			if !p.it.Stall {
+			if !p.it.Stall && !p.it.Brim && !p.willHandshake {
+				go p.reader(e)
+			}
+		case "handshake":
+			tc := tls.Client(conn, c18ClientTLS(p.it))
+			err := tc.Handshake()
+			e.mu.Lock()
+			if err != nil {
+				p.dead, p.hsErr = true, err
+				e.mu.Unlock()
+				return
+			}
+			p.tls, p.hsDone = tc, true
+			e.mu.Unlock()
+			if p.it.Kind == "raw" && lk == "http" {
+				// as above, from the end of the handshake on (the handshake itself needs both directions)
+				p.conn.Peer().Stall(true)
+			}
+			if !p.it.Stall && !p.it.Brim {
 				go p.reader(e)
 			}
 		case "write":
-			_, err := conn.Write(a.Data)
+			var err error
+			if tc != nil {
+				_, err = tc.Write(a.Data)
+			} else {
+				_, err = conn.Write(a.Data)
+			}
 			if err != nil {
 				e.mu.Lock()
 				if p.werr == nil {
@@ -957,7 +1182,13 @@ func (p *c18Peer) actor(e *c18Env) {
 				}
 				e.mu.Unlock()
 			}
-		case "close", "leave-fin":
+		case "close":
+			if tc != nil {
+				tc.Close() // close_notify, then the connection
+			} else {
+				conn.Close()
+			}
+		case "leave-fin":
 			conn.Close()
 		case "leave-rst":
 			conn.Reset()
@@ -976,8 +1207,14 @@ func (p *c18Peer) actor(e *c18Env) {
 
 func (p *c18Peer) reader(e *c18Env) {
 	buf := make([]byte, 4096)
+	e.mu.Lock()
+	var rd io.Reader = p.conn
+	if p.tls != nil {
+		rd = p.tls
+	}
+	e.mu.Unlock()
 	for {
-		n, err := p.conn.Read(buf)
+		n, err := rd.Read(buf)
 		e.mu.Lock()
 		p.recv = append(p.recv, buf[:n]...)
 		if !p.complete && p.it.Kind != "raw" {
@@ -1031,6 +1268,9 @@ func (e *c18Env) grpcCall(p *c18Peer) {
 				e.mu.Lock()
 				p.conn = sc
 				e.mu.Unlock()
+				if l := e.sc.Listeners[it.Lis]; l.Pxy && !it.NoPxy {
+					c.Write(c18PxyHeader(it, l))
+				}
 			}
 			return c, err
 		}))
@@ -1115,6 +1355,7 @@ func (e *c18Env) events() []simcore.Event {
 		ev = append(ev, simcore.Event{Key: "cl:" + p.it.ID, Fire: func() {
 			e.mu.Lock()
 			if a.Kind == "dial" || a.Kind == "call" {
+				p.gone = e.sdReturned
 				switch {
 				case !e.sdStarted:
 					p.phase = "before"
@@ -1141,6 +1382,49 @@ func (e *c18Env) events() []simcore.Event {
 			p.gate <- struct{}{}
 		}})
 	}
+	// a listener that is started while fabio runs
+	for i, l := range e.sc.Listeners {
+		i, l := i, l
+		if l.StartAt == nil || l.started || now.Before(e.base.Add(*l.StartAt)) {
+			continue
+		}
+		ev = append(ev, simcore.Event{Key: fmt.Sprintf("start:%d", i), Fire: func() { e.lateStart(i, l) }})
+	}
+	for i, l := range e.sc.Listeners {
+		i, l := i, l
+		if l.StartAt == nil || !l.srv.atDoor || l.srv.doorOpen {
+			continue
+		}
+		ev = append(ev, simcore.Event{Key: fmt.Sprintf("start:%d:serve", i), Fire: func() {
+			e.mu.Lock()
+			l.srv.doorOpen = true
+			sd := l.srv.sdEntered
+			e.mu.Unlock()
+			e.r.Tracef("listener %d %s %s: registered, its Serve begins now", i, l.Kind, l.Addr)
+			if sd {
+				e.r.Probe("server_shut_down_between_registration_and_serve_" + l.Kind)
+			}
+			close(l.srv.door)
+		}})
+	}
+	// a backend that fills the window of a client that does not read: the next piece is sent once everything
+	// sent so far has reached the client's connection
+	for _, it := range e.sc.Items {
+		it := it
+		if !it.Brim || !it.fillWaiting || it.fillDone {
+			continue
+		}
+		p := e.peerOf(it)
+		if p == nil || p.conn == nil {
+			continue
+		}
+		if it.upConn != nil {
+			if sent, _, read := it.upConn.Counters(); sent != read {
+				continue // fabio has not taken everything over yet
+			}
+		}
+		ev = append(ev, simcore.Event{Key: "fill:" + it.ID, Fire: func() { e.fill(it, p) }})
+	}
 	// faults: a scripted accept error fires before Shutdown is called (it is never later than the shutdown
 	// instant; after the call the listener is closed anyway)
 	faultDue := false
@@ -1156,6 +1440,67 @@ func (e *c18Env) events() []simcore.Event {
 		ev = append(ev, simcore.Event{Key: "shutdown", Weight: 2, Fire: e.startShutdown})
 	}
 	return ev
+}
+
+// fill decides the next piece a backend sends to a client that does not read (Brim). Nothing here knows what a
+// byte of payload costs on the client's connection (TLS records, chunk framing): the cost of a 1-byte
+// piece is measured on the connection itself. Large pieces first (three quarters of the room that is left
+// above a margin of 16 small pieces), then 1-byte pieces until one more would not fit.
+func (e *c18Env) fill(it *c18Item, p *c18Peer) {
+	sent, _, read := p.conn.Peer().Counters() // the direction fabio -> client
+	room := e.net.Window - int(sent-read)
+	e.mu.Lock()
+	if it.fillN >= 2 && it.fillLastK == 1 {
+		it.fillCost1 = int(sent - it.fillBase)
+	}
+	k := 0
+	switch {
+	case it.fillN < 2:
+		k = 1 // the first piece may carry a response head; the second calibrates
+	case it.fillCost1 <= 0 || room < it.fillCost1:
+		k = 0
+	case room <= 16*it.fillCost1:
+		k = 1
+	default:
+		k = (room - 16*it.fillCost1) * 3 / 4
+		if k < 1 {
+			k = 1
+		}
+	}
+	it.fillN++
+	it.fillLastK, it.fillBase = k, sent
+	it.fillWaiting = false
+	if k == 0 {
+		it.fillDone = true
+	}
+	e.mu.Unlock()
+	e.r.Tracef("fill %s piece %d room=%d", it.ID, k, room)
+	select {
+	case it.fillCh <- k:
+	case <-e.stop:
+	}
+}
+
+// brimLoop is the backend's side of fill: it sends the pieces the driver asks for and returns when the
+// window is full (true) or the connection or the run has ended (false).
+func (e *c18Env) brimLoop(it *c18Item, send func([]byte) error) bool {
+	for {
+		e.mu.Lock()
+		it.fillWaiting = true
+		e.mu.Unlock()
+		var k int
+		select {
+		case k = <-it.fillCh:
+		case <-e.stop:
+			return false
+		}
+		if k <= 0 {
+			return true
+		}
+		if err := send(bytes.Repeat([]byte{'#'}, k)); err != nil {
+			return false
+		}
+	}
 }
 
 // acceptError makes the accept loop of listener i fail for good.
@@ -1197,6 +1542,109 @@ func (e *c18Env) startShutdown() {
 	} else {
 		go run()
 	}
+}
+
+// startListener opens the listener of l on the simulated network, wraps it as proxy.ListenTCP wraps a
+// real one (PROXY protocol below TLS) and hands it to the real proxy.serve.
+func (e *c18Env) startListener(i int, l *c18Lis) net.Listener {
+	nw, opts := e.net, simnet.ListenOpts{}
+	if l.Kind == "grpc" || l.Kind == "grpc-proxy" {
+		nw, opts = e.gnet, simnet.ListenOpts{Auto: true}
+	}
+	sln, err := nw.Listen(l.Addr, opts)
+	if err != nil {
+		e.r.Trouble("listen %s: %v", l.Addr, err)
+		return nil
+	}
+	var ln net.Listener = sln
+	if l.AcceptErrAt != nil {
+		l.fl = c18NewFaultyListener(sln)
+		ln = l.fl
+		e.d.Hint(e.base.Add(*l.AcceptErrAt))
+	}
+	if l.Pxy {
+		ln = &proxyproto.Listener{Listener: ln, ProxyHeaderTimeout: l.PxyTimeout}
+	}
+	if l.TLS {
+		ln = tls.NewListener(ln, l.tlscfg)
+	}
+	srv := l.srv
+	if e.sc.Tasks && (l.Kind == "tcp" || l.Kind == "sni" || l.StartAt != nil) {
+		// proxy.serve, the accept loop and the per-connection goroutines of tcp.Server are tasks
+		e.d.Sim.Spawn(fmt.Sprintf("srv%d", i), func() { serve(ln, srv) })
+	} else {
+		go serve(ln, srv)
+	}
+	return ln
+}
+
+// lateStart is the driver event that starts a listener while fabio runs (a ListenAndServe call that begins
+// around the shutdown). Once proxy.Shutdown has returned the process is gone (main.go): nothing starts.
+func (e *c18Env) lateStart(i int, l *c18Lis) {
+	e.mu.Lock()
+	l.started = true
+	switch {
+	case e.sdReturned:
+		l.skipped, l.startedPh = true, "process-gone"
+	case !e.sdStarted:
+		l.startedPh = "before"
+	case !e.begun:
+		l.startedPh = "gray"
+	default:
+		l.startedPh = "after"
+	}
+	ph := l.startedPh
+	e.mu.Unlock()
+	e.r.Tracef("listener %d %s %s: start (%s)", i, l.Kind, l.Addr, ph)
+	if ph == "process-gone" {
+		return
+	}
+	e.r.Probe("listener_started_" + ph + "_shutdown_call")
+	e.startListener(i, l)
+}
+
+// ---- TLS
+
+var c18CertOnce sync.Once
+var c18Cert tls.Certificate
+
+// c18SelfSigned returns a process-wide self-signed certificate (Ed25519: signatures and keys have fixed
+// lengths, so TLS record sizes do not vary between executions).
+func c18SelfSigned() *tls.Certificate {
+	c18CertOnce.Do(func() {
+		pub, key, err := ed25519.GenerateKey(rand.Reader)
+		if err != nil {
+			panic(err)
+		}
+		tmpl := &x509.Certificate{SerialNumber: big.NewInt(1), Subject: pkix.Name{CommonName: "sim"},
+			NotBefore: time.Date(1999, 1, 1, 0, 0, 0, 0, time.UTC), NotAfter: time.Date(2100, 1, 1, 0, 0, 0, 0, time.UTC),
+			DNSNames: []string{"fabio.sim", "*.example.com"}, KeyUsage: x509.KeyUsageDigitalSignature, ExtKeyUsage: []x509.ExtKeyUsage{x509.ExtKeyUsageServerAuth}}
+		der, err := x509.CreateCertificate(rand.Reader, tmpl, tmpl, pub, key)
+		if err != nil {
+			panic(err)
+		}
+		c18Cert = tls.Certificate{Certificate: [][]byte{der}, PrivateKey: key}
+	})
+	return &c18Cert
+}
+
+// c18ServerTLS is the TLS configuration of a TLS-terminating listener, shaped like the one cert.TLSConfig
+// returns (certificate through GetCertificate, the same NextProtos).
+func c18ServerTLS() *tls.Config {
+	return &tls.Config{
+		NextProtos:     []string{"h2", "http/1.1"},
+		GetCertificate: func(*tls.ClientHelloInfo) (*tls.Certificate, error) { return c18SelfSigned(), nil },
+	}
+}
+
+// c18ClientTLS: the clients speak HTTP/1.1 only (no ALPN) and offer one key share of fixed length.
+func c18ClientTLS(it *c18Item) *tls.Config {
+	cfg := &tls.Config{ServerName: "fabio.sim", InsecureSkipVerify: true, MinVersion: tls.VersionTLS12,
+		CurvePreferences: []tls.CurveID{tls.X25519}}
+	if it.TLSVer == "1.2" {
+		cfg.MaxVersion = tls.VersionTLS12
+	}
+	return cfg
 }
 
 // ---- genuine ClientHello
@@ -1254,6 +1702,7 @@ func runC18(r *simcore.Run) {
 	g := r.Gen
 	for _, it := range sc.Items {
 		e.byID[it.ID] = it
+		it.fillCh = make(chan int)
 		for k := 0; k < it.Rounds; k++ {
 			it.reqs = append(it.reqs, g.Bytes(it.ReqLen))
 			it.replies = append(it.replies, g.Bytes(it.RespLen))
@@ -1271,14 +1720,26 @@ func runC18(r *simcore.Run) {
 		case "raw":
 			var full []byte
 			boundary := 0
-			switch sc.Listeners[it.Lis].Kind {
-			case "http":
+			l := sc.Listeners[it.Lis]
+			switch {
+			case it.Layer == "pxy":
+				full = c18PxyHeader(it, l)
+				boundary = len("PROXY ")
+			case it.Layer == "tls":
+				if it.Pre != "silent" {
+					if full = c18ClientHello(it.Name); full == nil {
+						r.Trouble("no ClientHello for %s", it.Name)
+						return
+					}
+				}
+				boundary = 5 // the TLS record header
+			case l.Kind == "http":
 				full = []byte(fmt.Sprintf("GET /%s HTTP/1.1\r\nHost: fabio.sim\r\nX-Sim-Id: %s\r\n\r\n", it.ID, it.ID))
 				boundary = bytes.Index(full, []byte("\r\n")) + 2 // the request line
-			case "tcp":
+			case l.Kind == "tcp":
 				full = []byte(fmt.Sprintf("<%-6s>", it.ID)) // the upstream waits for 8 bytes
 				boundary = 4
-			case "sni":
+			case l.Kind == "sni":
 				if it.Pre == "partial" {
 					if full = c18ClientHello(it.Name); full == nil {
 						r.Trouble("no ClientHello for %s", it.Name)
@@ -1293,7 +1754,7 @@ func runC18(r *simcore.Run) {
 			switch it.Pre {
 			case "partial":
 				it.pre = c18Partial(full, boundary, it.Cut)
-			case "preface":
+			case "preface", "hello":
 				it.pre = full
 			case "idle":
 				it.pre = append(full, c18HTTP2Settings...)
@@ -1335,19 +1796,21 @@ func runC18(r *simcore.Run) {
 	if sc.Tasks {
 		// closeConns ranges over a map keyed by net.Conn (native, random order): it stays one step, so
 		// that the order in which it closes the connections cannot reach the schedule
-		e.d.Sim.Activate("proxy:Shutdown", "proxy/tcp:*Server.", "-proxy/tcp:*Server.closeConns")
+		e.d.Sim.Activate("proxy:Shutdown", "proxy:serve", "proxy/tcp:*Server.", "-proxy/tcp:*Server.closeConns")
 	}
 
 	// servers, started through the real proxy.serve, one after the other (listener i is registered and
-	// accepting before listener i+1 starts: the order of registration is the order of the scenario)
+	// accepting before listener i+1 starts: the order of registration is the order of the scenario); a
+	// listener with a start instant is built here and started by a driver event at that instant
 	upstreams := map[string]bool{} // looked up only
 	for i, l := range sc.Listeners {
 		var inner Server
-		nw := e.net
-		opts := simnet.ListenOpts{}
+		if l.TLS {
+			l.tlscfg = c18ServerTLS()
+		}
 		switch l.Kind {
 		case "http":
-			inner = &http.Server{Handler: e.httpHandler()}
+			inner = &http.Server{Handler: e.httpHandler(), TLSConfig: l.tlscfg}
 		case "tcp":
 			inner = &tcp.Server{Handler: &tcp.Proxy{DialTimeout: 20 * time.Second, Lookup: lookup}}
 			if !upstreams[l.Up] {
@@ -1358,46 +1821,36 @@ func runC18(r *simcore.Run) {
 			inner = &tcp.Server{Handler: &tcp.SNIProxy{DialTimeout: 20 * time.Second, Lookup: lookup}}
 		case "grpc":
 			inner = &gRPCServer{server: grpc.NewServer(grpc.UnknownServiceHandler(e.grpcHandler))}
-			nw, opts = e.gnet, simnet.ListenOpts{Auto: true}
 		case "grpc-proxy":
 			gopts := e.grpcProxyOptions(i)
 			if gopts == nil {
 				return
 			}
 			inner = &gRPCServer{server: grpc.NewServer(gopts...)}
-			nw, opts = e.gnet, simnet.ListenOpts{Auto: true}
-		}
-		sln, err := nw.Listen(l.Addr, opts)
-		if err != nil {
-			r.Trouble("listen %s: %v", l.Addr, err)
-			return
-		}
-		var ln net.Listener = sln
-		if l.AcceptErrAt != nil {
-			l.fl = c18NewFaultyListener(sln)
-			ln = l.fl
-			e.d.Hint(e.base.Add(*l.AcceptErrAt))
 		}
 		l.srv = &c18Server{e: e, kind: l.Kind, inner: inner}
-		srv := l.srv
-		if sc.Tasks && (l.Kind == "tcp" || l.Kind == "sni") {
-			// the accept loop and the per-connection goroutines of tcp.Server are tasks
-			e.d.Sim.Spawn(fmt.Sprintf("srv%d", i), func() { serve(ln, srv) })
-		} else {
-			go serve(ln, srv)
+		if l.StartAt != nil {
+			l.srv.door = make(chan struct{})
+			e.d.Hint(e.base.Add(*l.StartAt))
+			r.Tracef("listener %d %s %s tls=%v pxy=%v will be started at %s", i, l.Kind, l.Addr, l.TLS, l.Pxy, *l.StartAt)
+			continue
+		}
+		ln := e.startListener(i, l)
+		if ln == nil {
+			return
 		}
 		// every server is serving before the next one starts and before the clock starts (start-up
-		// races are not the subject)
+		// races of the initial listeners are not the subject)
 		e.drainTasks()
 		e.mu.Lock()
-		serving := srv.serving
+		serving := l.srv.serving
 		e.mu.Unlock()
 		if !serving {
 			r.Trouble("listener %d (%s %s) was started but its server is not serving", i, l.Kind, l.Addr)
 			return
 		}
 		// what fabio sees of the listener
-		r.Tracef("listener %d %s %s addr=%s", i, l.Kind, l.Addr, ln.Addr())
+		r.Tracef("listener %d %s %s tls=%v pxy=%v addr=%s", i, l.Kind, l.Addr, l.TLS, l.Pxy, ln.Addr())
 	}
 	for _, it := range sc.Items {
 		if it.Kind == "sni" {
@@ -1411,6 +1864,28 @@ func runC18(r *simcore.Run) {
 	for _, it := range sc.Items {
 		l := sc.Listeners[it.Lis]
 		at := func(d time.Duration) time.Time { return e.base.Add(d) }
+		// what a client does before it speaks the protocol of the listener: PROXY header, TLS handshake
+		upto := "proto"
+		if it.Kind == "raw" {
+			upto = it.Layer
+		}
+		acts := []c18Act{{Kind: "dial", At: at(it.Start)}}
+		for _, layer := range l.layers() {
+			if layer == upto {
+				break
+			}
+			switch layer {
+			case "pxy":
+				if !it.NoPxy {
+					acts = append(acts, c18Act{Kind: "write", Data: c18PxyHeader(it, l)})
+				}
+			case "tls":
+				acts = append(acts, c18Act{Kind: "handshake"})
+			}
+		}
+		if l.Pxy {
+			e.d.Hint(at(it.Start + l.PxyTimeout))
+		}
 		switch it.Kind {
 		case "http":
 			var b bytes.Buffer
@@ -1420,10 +1895,10 @@ func runC18(r *simcore.Run) {
 			} else {
 				fmt.Fprintf(&b, "GET /%s HTTP/1.1\r\nHost: fabio.sim\r\nX-Sim-Id: %s\r\n\r\n", it.ID, it.ID)
 			}
-			acts := []c18Act{{Kind: "dial", At: at(it.Start)}, {Kind: "write", Data: b.Bytes()}}
+			acts = append(acts, c18Act{Kind: "write", Data: b.Bytes()})
 			if it.Leave != "" {
 				acts = append(acts, c18Act{Kind: "leave-" + it.Leave, At: at(it.LeaveAt)})
-			} else if !it.Stall {
+			} else if !it.Stall && !it.Brim {
 				acts = append(acts, c18Act{Kind: "awaithttp"})
 				if !it.Hold {
 					acts = append(acts, c18Act{Kind: "close"})
@@ -1435,7 +1910,7 @@ func runC18(r *simcore.Run) {
 			if it.Kind == "sni" {
 				greet = it.hello
 			}
-			acts := []c18Act{{Kind: "dial", At: at(it.Start)}, {Kind: "write", Data: greet}}
+			acts = append(acts, c18Act{Kind: "write", Data: greet})
 			want := 0
 			for k := 0; k < it.Rounds; k++ {
 				w := c18Act{Kind: "write", Data: it.reqs[k]}
@@ -1444,7 +1919,7 @@ func runC18(r *simcore.Run) {
 				}
 				want += len(it.replies[k])
 				acts = append(acts, w)
-				if !it.Stall {
+				if !it.Stall && !it.Brim {
 					acts = append(acts, c18Act{Kind: "await", N: want})
 				}
 			}
@@ -1455,7 +1930,6 @@ func runC18(r *simcore.Run) {
 			}
 			e.addPeer(it, l.dialKey(), acts, want)
 		case "raw":
-			acts := []c18Act{{Kind: "dial", At: at(it.Start)}}
 			if len(it.pre) > 0 {
 				acts = append(acts, c18Act{Kind: "write", Data: it.pre})
 			}
@@ -1464,7 +1938,8 @@ func runC18(r *simcore.Run) {
 			}
 			e.addPeer(it, l.dialKey(), acts, 0)
 		default:
-			acts := []c18Act{{Kind: "call", At: at(it.Start)}}
+			// gRPC: the PROXY header is written by the dialer of the call's ClientConn
+			acts = []c18Act{{Kind: "call", At: at(it.Start)}}
 			if it.Leave != "" {
 				acts = append(acts, c18Act{Kind: "leave-" + it.Leave, At: at(it.LeaveAt)})
 			}
@@ -1641,7 +2116,7 @@ func (e *c18Env) judge() {
 			r.Probe("serve_returned_the_accept_error")
 		}
 		if s.sdEntered && (!s.sdReturned || s.sdAt.After(deadline)) {
-			blocked = append(blocked, l.Kind)
+			blocked = append(blocked, l.name())
 		}
 	}
 	sort.Strings(blocked)
@@ -1663,7 +2138,7 @@ func (e *c18Env) judge() {
 				open = append(open, it.ID+"("+it.label()+")")
 			}
 			if p := e.peerOf(it); it.Kind == "raw" && p.openAtCall() && (it.Leave == "" || !e.base.Add(it.LeaveAt).Before(deadline)) {
-				open = append(open, it.ID+"("+it.label()+" connection to the "+sc.Listeners[it.Lis].Kind+" listener)")
+				open = append(open, it.ID+"("+it.label()+" connection to the "+sc.Listeners[it.Lis].name()+" listener)")
 			}
 		}
 		r.Fail("shutdown-return", "not-returned-by-deadline servers="+which,
@@ -1679,7 +2154,7 @@ func (e *c18Env) judge() {
 		}
 		f := e.base.Add(it.finish())
 		ok, how := e.outcome(it, p)
-		served := it.entered || len(p.recv) > 0 || it.code == "OK"
+		served := it.entered || len(p.recv) > 0 || it.code == "OK" || p.hsDone
 		if it.Leave != "" && it.Kind != "http" && it.Kind != "tcp" && it.Kind != "sni" {
 			how = "client-left" // which status the call ends with is grpc-go's business
 		}
@@ -1687,8 +2162,17 @@ func (e *c18Env) judge() {
 			it.finish(), it.Forever, ok, how, p.dialErr != nil)
 
 		// (1) nothing that connects after shutdown has begun is served
+		if l := sc.Listeners[it.Lis]; p.phase == "after" && l.StartAt != nil && (p.gone || l.srv.servedGone) {
+			// fabio exits when Shutdown returns: what a listener that was being started then does afterwards
+			// is not fabio's behaviour any more
+			r.Probe("attempt_after_shutdown_returned_to_listener_started_late")
+			continue
+		}
 		if p.phase == "after" {
 			r.Probe("attempt_after_begun")
+			if sc.Listeners[it.Lis].StartAt != nil {
+				r.Probe("attempt_after_begun_listener_started_" + sc.Listeners[it.Lis].startedPh + "_shutdown_call")
+			}
 			if sc.sharesPort(sc.Listeners[it.Lis]) {
 				r.Probe("attempt_after_begun_listener_shares_port")
 			}
@@ -1721,6 +2205,11 @@ func (e *c18Env) judge() {
 			}
 			if it.Stall {
 				r.Probe("open_forever_blocked_in_write_" + it.label())
+			}
+			if it.Brim && it.fillDone {
+				r.Probe("open_forever_client_window_full_" + it.label())
+			} else if it.Brim {
+				r.Probe("open_forever_client_window_not_filled_" + it.label())
 			}
 			if p.leftPhase != "" && p.leftPhase != "before" && e.base.Add(it.LeaveAt).Before(deadline) {
 				r.Probe("open_forever_client_left_during_drain_" + it.Leave + "_" + it.label())
@@ -1770,7 +2259,13 @@ func (e *c18Env) judge() {
 	}
 }
 
-func l18Kind(sc *c18Scenario, it *c18Item) string { return sc.Listeners[it.Lis].Kind }
+func l18Kind(sc *c18Scenario, it *c18Item) string {
+	l := sc.Listeners[it.Lis]
+	if l.StartAt != nil {
+		return l.Kind + " listener-started-around-the-shutdown"
+	}
+	return l.name()
+}
 
 // openAtCall says whether the client's connection was established before the Shutdown call and the client
 // had not gone away by then.
@@ -1783,16 +2278,24 @@ func (p *c18Peer) openAtCall() bool {
 func (e *c18Env) judgeRaw(it *c18Item, p *c18Peer, deadline time.Time) {
 	r, sc := e.r, e.sc
 	l := sc.Listeners[it.Lis]
-	r.Tracef("item %s %s cut=%s listener=%s attempt=%s connected=%v leave=%s at=%s left=%s", it.ID, it.label(), it.Cut, l.Kind, p.phase,
+	r.Tracef("item %s %s cut=%s listener=%s attempt=%s connected=%v leave=%s at=%s left=%s", it.ID, it.label(), it.Cut, l.name(), p.phase,
 		p.conn != nil, it.Leave, it.LeaveAt, p.leftPhase)
+	if p.phase == "after" && l.StartAt != nil && (p.gone || l.srv.servedGone) {
+		r.Probe("attempt_after_shutdown_returned_to_listener_started_late")
+		return
+	}
 	if p.phase == "after" {
 		r.Probe("attempt_after_begun")
 		r.Probe("raw_attempt_after_begun")
-		if len(p.recv) > 0 {
-			// the listener greeted the connection (a gRPC server sends its SETTINGS frame at once)
-			r.Fail("accepts-after-shutdown", l.Kind,
-				"raw connection %s (%s) to %s at %s, after Shutdown had begun (called at %s), was accepted and received %d bytes from the listener",
-				it.ID, it.Pre, l.Addr, it.Start, e.t0.Sub(e.base), len(p.recv))
+		if l.StartAt != nil {
+			r.Probe("attempt_after_begun_listener_started_" + l.startedPh + "_shutdown_call")
+		}
+		if len(p.recv) > 0 || p.hsDone {
+			// the listener greeted the connection (a gRPC server sends its SETTINGS frame at once, a
+			// TLS-terminating listener answers the ClientHello)
+			r.Fail("accepts-after-shutdown", l18Kind(sc, it),
+				"raw connection %s (%s) to %s at %s, after Shutdown had begun (called at %s), was accepted and received %d bytes from the listener (TLS handshake completed: %v)",
+				it.ID, it.label(), l.Addr, it.Start, e.t0.Sub(e.base), len(p.recv), p.hsDone)
 		} else if p.dialErr != nil {
 			r.Probe("attempt_after_begun_refused")
 		}
@@ -1803,17 +2306,17 @@ func (e *c18Env) judgeRaw(it *c18Item, p *c18Peer, deadline time.Time) {
 	}
 	if !p.openAtCall() {
 		if p.leftPhase == "before" {
-			r.Probe("raw_came_and_went_before_shutdown_" + l.Kind)
+			r.Probe("raw_came_and_went_before_shutdown_" + l.name())
 		}
 		return
 	}
 	r.Nontrivial()
-	r.Probe("open_raw_" + it.Pre + "_" + l.Kind)
+	r.Probe("open_" + it.label() + "_" + l.name())
 	switch {
 	case it.Leave == "" || !e.base.Add(it.LeaveAt).Before(deadline):
-		r.Probe("open_raw_until_the_deadline_" + l.Kind)
+		r.Probe("open_raw_until_the_deadline_" + l.name())
 	case p.leftPhase != "":
-		r.Probe("open_raw_client_left_during_drain_" + it.Leave + "_" + l.Kind)
+		r.Probe("open_raw_client_left_during_drain_" + it.Leave + "_" + l.name())
 	}
 }
 
